@@ -56,3 +56,8 @@ Example C05_example :
   eval no_env (Un UFact (Const (NInt 25))) = EOk (NInt 15511210043330985984000000) /\
   eval no_env (Bin KPow (Const (NInt 2)) (Const (NInt (-1)))) = EOk (NFlt (1#2)).
 Proof. repeat split; vm_compute; reflexivity. Qed.
+
+(* the case of defect V1 (AbsExpression through np.absolute wrapped at 64 bits): in the model |-2^63| * |-2^63| is the exact 2^126 *)
+Example C05_abs_example :
+  eval (fun _ => None) (Bin KMul (Un UAbs (Const (NInt (- 2 ^ 63)))) (Un UAbs (Const (NInt (- 2 ^ 63))))) = EOk (NInt (2 ^ 126)).
+Proof. vm_compute. reflexivity. Qed.
